@@ -104,3 +104,59 @@ func VerifDecodeService(b []byte) (interface{}, error) {
 	_, svc, err := ua.DecodeService(b)
 	return svc, err
 }
+
+// ---- read-only accessors on a live channel, taken under the channel's own mutexes ----
+
+// VerifPendingHandlers returns the number of registered response handlers.
+func (s *SecureChannel) VerifPendingHandlers() int {
+	s.handlersMu.Lock()
+	defer s.handlersMu.Unlock()
+	return len(s.handlers)
+}
+
+// VerifBufferedChunks returns the number of request ids with a partial message,
+// the number of chunks buffered for them and the bytes these chunks hold.
+func (s *SecureChannel) VerifBufferedChunks() (reqIDs, chunks, bytes int) {
+	s.chunksMu.Lock()
+	defer s.chunksMu.Unlock()
+	for _, cs := range s.chunks {
+		reqIDs++
+		for _, c := range cs {
+			chunks++
+			bytes += len(c.Data)
+		}
+	}
+	return
+}
+
+// VerifToken describes one channel instance (security token) known to the channel.
+type VerifToken struct {
+	ChannelID, TokenID, SequenceNumber uint32
+	Active                             bool
+}
+
+// VerifTokens lists all channel instances the channel would try when verifying a chunk.
+func (s *SecureChannel) VerifTokens() []VerifToken {
+	s.instancesMu.Lock()
+	defer s.instancesMu.Unlock()
+	var out []VerifToken
+	for _, is := range s.instances {
+		for _, i := range is {
+			out = append(out, VerifToken{i.secureChannelID, i.securityTokenID, i.sequenceNumber, i == s.activeInstance})
+		}
+	}
+	return out
+}
+
+// VerifSetSequenceNumber sets the sequence number of the active instance. It is
+// meant to be called before traffic starts, to reach the wrap-around.
+func (s *SecureChannel) VerifSetSequenceNumber(n uint32) bool {
+	i, err := s.getActiveChannelInstance()
+	if err != nil {
+		return false
+	}
+	i.Lock()
+	i.sequenceNumber = n
+	i.Unlock()
+	return true
+}
